@@ -1118,6 +1118,12 @@ fn fam_listneg2(_func: Option<&str>, only: Option<u64>) {
     let member2: Vec<Vec<bool>> = shapes2.iter().map(|s| lists.iter().map(|l| in_shape(s, l)).collect()).collect();
     let n2 = shapes2.len();
     for a in 0..n2 { for b in 0..n2 { for c in 0..n2 { ask(&mut rep, &shapes2, &member2, a, &[b, c]); } } }
+    // three negatives, in every order, drawn from every third shape of part 2; positives with a rest only
+    let thin2: Vec<usize> = (0..n2).filter(|i| i % 3 == 1).collect();
+    for a in 0..n2 {
+        if shapes2[a].1.is_none() { continue; }
+        for b in &thin2 { for c in &thin2 { for d in &thin2 { ask(&mut rep, &shapes2, &member2, a, &[*b, *c, *d]); } } }
+    }
     rep.print();
 }
 
